@@ -3,7 +3,7 @@ service) and the arithmetic / route-builder part (route: Timelock.tla against th
 import time
 
 import vp
-from engines import peersync, route, swapfsm, tx
+from engines import peersync, record, route, swapfsm, tx
 
 PARTS = {"C04": "C04R", "C05": "C05R"}
 
@@ -42,6 +42,8 @@ def run(prop, tier):
         return run_tx("C01", "C01V", tier)
     if prop == "C08":
         return run_tx("C08", "C08", tier)
+    if prop == "C14":   # reachable records (restart at every persisted state; swapfsm) + arbitrary field values through the real store (record)
+        return run_tx("C14", "C14R", tier, mod=record)
     if prop == "C26":   # FSM clause (quarantine after a CSV refund; swapfsm) + peer-sync clause (suspicious peers are neither answered nor stored; peersync)
         return run_tx("C26", "C26", tier, mod=peersync)
     t0 = time.time()
